@@ -178,6 +178,18 @@ MUTANTS = [
     ("det-collect-pending", "C05", "R-DET", "finalize_id_accesses", "crates/parser/src/parser.rs",
      "        self.ids_assigned_in_frame\n            .extend(self.pending_assignments.drain());",
      "        let drained: Vec<ConstantIndex> = self.pending_assignments.drain().collect();\n        self.ids_assigned_in_frame.extend(drained);"),
+    ("match-target-id-branch-by-pattern-position", "C16", "R-MATCH-TARGET", "compile_match_arm_patterns",
+     "crates/bytecode/src/compiler.rs",
+     "                            self.compile_check_type(id_register, *type_hint, ctx)?;\n                        // Where should failed type checks jump to?\n                        if params.is_last_alternative {",
+     "                            self.compile_check_type(id_register, *type_hint, ctx)?;\n                        // Where should failed type checks jump to?\n                        if is_last_pattern {"),
+    ("match-target-nested-flag-recomputed", "C03", "R-MATCH-TARGET", "compile_match_arm_patterns",
+     "crates/bytecode/src/compiler.rs",
+     "                            match_register: params.match_register,\n                            is_last_alternative: params.is_last_alternative,",
+     "                            match_register: params.match_register,\n                            is_last_alternative: is_last_pattern,"),
+    ("force-export-multi-assign-flag-only", "C18", "R-FORCE-EXPORT", "compile_multi_assign",
+     "crates/bytecode/src/compiler.rs",
+     "                    if export_assignment || self.force_export_assignment() {\n                        self.compile_value_export(*id_index, target_register)?;",
+     "                    if export_assignment {\n                        self.compile_value_export(*id_index, target_register)?;"),
 ]
 
 
@@ -195,6 +207,15 @@ BENIGN = [
     ("benign-vm-checked-add", "C06", "crates/runtime/src/vm.rs",
      [("        let [result_register, value_register] = self.next_registers()?;",
        "        let result_register = self.new_frame_base()?;\n        let Some(value_register) = result_register.checked_add(1) else {\n            return runtime_error!(\"Overflow of the current frame's register stack\");\n        };")]),
+    ("benign-force-export-hoisted-everywhere", "C18", "crates/bytecode/src/compiler.rs",
+     [("        ctx: CompileNodeContext,\n    ) -> Result<CompileNodeOutput> {\n        // Reserve any assignment registers for IDs on the LHS before compiling the RHS\n        let result = self.assign_result_register(ctx)?;\n        let target_registers = self.local_registers_for_assign_target(target, ctx)?;",
+       "        ctx: CompileNodeContext,\n    ) -> Result<CompileNodeOutput> {\n        let export_assignment = export_assignment || self.force_export_assignment();\n        // Reserve any assignment registers for IDs on the LHS before compiling the RHS\n        let result = self.assign_result_register(ctx)?;\n        let target_registers = self.local_registers_for_assign_target(target, ctx)?;"),
+      ("                    if export_assignment || self.force_export_assignment() {\n                        self.compile_value_export(*id, target_register)?;",
+       "                    if export_assignment {\n                        self.compile_value_export(*id, target_register)?;"),
+      ("                        value_register,\n                        export_assignment,\n                        ctx,\n                    )?;\n",
+       "                        value_register,\n                        export_assignment || self.force_export_assignment(),\n                        ctx,\n                    )?;\n"),
+      ("                            map_register,\n                            false,\n                            ctx,",
+       "                            map_register,\n                            self.force_export_assignment(),\n                            ctx,")]),
     ("benign-read-line-trim-end", "C06", "crates/runtime/src/core_lib/io.rs",
      [("                    let line = result.strip_suffix('\\n').unwrap_or(&result);\n                    line.strip_suffix('\\r').unwrap_or(line).into()",
        "                    let newline_bytes = if result.ends_with(\"\\r\\n\") {\n                        2\n                    } else if result.ends_with('\\n') {\n                        1\n                    } else {\n                        0\n                    };\n                    result[..result.len() - newline_bytes].into()")]),
@@ -255,6 +276,8 @@ SEEDS = [
     ("C19_d", "C19", "R-RECURSIVE-READ"),
     ("C20_c", "C20", "R-SERDE-KINDS"),
     ("C20_d", "C20", "R-SERDE-NARROW"),
+    ("C16_d", "C16", "R-MATCH-TARGET"),
+    ("C18_d", "C18", "R-FORCE-EXPORT"),
 ]
 
 
